@@ -685,6 +685,53 @@ def replay_api(payload):
 # ---- main -------------------------------------------------------------------------------------
 
 
+def foreign_instances(payload):
+    """A Path instance that was created (and checked) for one mode, handed to an argument of a path type with another mode, is
+    accepted exactly when the same location given as text is accepted: an instance carries no proof for a mode it was not built with."""
+    import shutil
+    import tempfile
+
+    from jsonargparse import ArgumentError, ArgumentParser, Path
+    from jsonargparse.typing import path_type
+
+    root = os.path.realpath(tempfile.mkdtemp(prefix="c19fi_"))
+    old = os.getcwd()
+    bad = []
+    try:
+        os.chdir(root)
+        with open("file.txt", "w") as f:
+            f.write("x")
+        os.mkdir("dir")
+        modes = ["fr", "fc", "dw", "dc", "fw", "drw"]
+        for loc in ("file.txt", "dir", "missing"):
+            for made_with in modes:
+                try:
+                    inst = Path(loc, mode=made_with)
+                except TypeError:
+                    continue
+                for arg_mode in modes:
+                    T = path_type(arg_mode)
+                    p = ArgumentParser(exit_on_error=False)
+                    p.add_argument("--p", type=T)
+                    try:
+                        p.parse_object({"p": loc})
+                        want = True
+                    except ArgumentError:
+                        want = False
+                    for given in (inst, path_type(made_with)(loc)):
+                        try:
+                            p.parse_object({"p": given})
+                            got = True
+                        except ArgumentError:
+                            got = False
+                        if got != want:
+                            bad.append(f"{type(given).__name__}({loc!r}, mode={made_with!r}) for a Path_{arg_mode} argument: accepted={got}, the text {loc!r} accepted={want}")
+    finally:
+        os.chdir(old)
+        shutil.rmtree(root, ignore_errors=True)
+    return dict(bad=bad[:12], reproduced=bool(bad), detail=str(bad[:6]))
+
+
 def main(rep, tier):
     rep.functions = FUNCTIONS
     maxflags = 2 if tier == "quick" else 4
@@ -710,6 +757,11 @@ def main(rep, tier):
     jobs.append(dict(module="c19", func="api", kwargs={}, timeout=600))
     results = run_jobs(jobs)
     fails = absorb(rep, results, require_tags=("accept", "reject", "raises", "returns", "fails", "parses"))
+    fi = run_native("props.c19", "foreign_instances", {})
+    rep.evaluations += 1
+    rep.extra["path_instances_of_another_mode"] = fi.get("bad") or "accepted exactly when the same location given as text is accepted (3 locations x 6 modes x 6 argument modes x 2 instance classes)"
+    for b in fi.get("bad", [])[:3]:
+        rep.violation(f"path instance of another mode: {b}", dict(module="props.c19", func="foreign_instances", payload={}))
     for cls, samples in fails.items():
         # one replay per (class, known-finding partition): try every sample until one is not covered
         reported = False
